@@ -71,7 +71,7 @@ def value_check(prop, src, tier, seed, rule, assumptions, parts=(1, 2, 3, 4), cl
     res.cls_kind = cls_kind
     build.prune_cache()
     jobs, cfgs, lad = plan_value(prop, src, tier, parts=parts, **kw)
-    run_jobs(res, jobs, prop, std_args(tier, seed, prop), timeout=3000 if tier == 'thorough' else 1200, on_build_fail=on_build_fail)
+    run_jobs(res, jobs, prop, std_args(tier, seed, prop), timeout=21600 if tier == 'thorough' else 3600, on_build_fail=on_build_fail)
     ladder_extra(res, lad, cfgs)
     if post:
         post(res)
